@@ -25,6 +25,8 @@ var targetFile = map[string]string{
 	"GetSystemErrorMessage": "GenErrors",
 	"isEphemeralHostPort":   "GenHandshake",
 	"mexCheckFrame":      "GenMex",
+	"hcEnabled":          "GenHealthIdle",
+	"idleCheckOk":        "GenHealthIdle",
 }
 
 // varFields: constant fields of package-level composite-literal variables.
@@ -133,4 +135,10 @@ var targets = []Target{
 	{Func: "messageExchange.checkFrame", Out: "mexCheckFrame", Params: "(fid : Z) (mid : Z)", Ret: "Z",
 		Hints:  map[string]string{"frame.Header.ID": "fid", "mex.msgID": "mid", "errUnexpectedFrameType": "4", "nil": "0"},
 		SHints: map[string]string{"mex.mexset.log.WithFields(...": ""}},
+	// health.go / channel.go (C19): option tests.  An error result is seen as "ok?" (nil => true).
+	{Func: "HealthCheckOptions.enabled", Out: "hcEnabled", Params: "(interval : Z)", Ret: "bool",
+		Hints: map[string]string{"hco.Interval": "interval"}},
+	{Func: "ChannelOptions.validateIdleCheck", Out: "idleCheckOk", Params: "(interval : Z) (maxIdle : Z)", Ret: "bool",
+		Hints: map[string]string{"o.IdleCheckInterval": "interval", "o.MaxIdleTime": "maxIdle",
+			"errMaxIdleTimeNotSet": "false", "nil": "true"}},
 }
